@@ -212,10 +212,12 @@ def gen_cases(rng, n):
         if rng.random() < 0.2:
             p['Number of Injection Wells'] = rng.choice([0, 1, 3])
         if pl == 5 and rng.random() < 0.5:
-            p['Absorption Chiller Capital Cost'] = rng.choice([2, 10])
-            p['Absorption Chiller O&M Cost'] = rng.choice([0.1, 1])
+            # 5 and 1 are the parameters' *declared defaults* (their initial value is the "not provided" sentinel -1): a figure the user
+            # states must be used even when it repeats the documented default
+            p['Absorption Chiller Capital Cost'] = rng.choice([2, 5, 5, 10])
+            p['Absorption Chiller O&M Cost'] = rng.choice([0.1, 1, 1])
         if pl == 6 and rng.random() < 0.5:
-            p['Heat Pump Capital Cost'] = rng.choice([2, 10])
+            p['Heat Pump Capital Cost'] = rng.choice([2, 5, 5, 10])
         if pl == 7:
             z = rng.random()
             if z < 0.2:
@@ -236,6 +238,9 @@ def gen_cases(rng, n):
     # closed-loop runs under the classical economic models (AGSEconomics delegates to Economics.Calculate)
     for k in range(max(6, n // 25)):
         p = geo.ags_params(rng.choice([1, 2, 3]), L=rng.choice([20, 40]))
+        # every closed-loop well geometry (U-loop, coaxial, vertical, L): the well-field roll-up must not depend on it
+        p['Well Geometry Configuration'] = (k % 4) + 1
+        p['Well Drilling Cost Correlation'] = rng.choice([3, 10, 1])
         for name, vals in FIXABLE:
             if rng.random() < 0.15:
                 p[name] = rng.choice(vals)
@@ -297,8 +302,45 @@ def evaluate(chk: core.Check, cases):
                             'coam': 'total annual O&M is not the sum of its components plus amortised redrilling and fees less tax relief (or the user-fixed total)'}.get(
                         key, f'cost component {pname} is neither the user-supplied figure nor the stated correlation')
                     chk.fail(f'C03/{sub}/{key}', what, {**base, 'quantity': pname, 'reported': pyv, 'documented': float(exact), 'reported_components': meta['reported']})
+        written_figures(chk, name, r)
         chk.case(json.dumps(r['params'], sort_keys=True, default=str), True)
         chk.sample({'case': name, 'reported': meta['reported'], 'lean_capex': res.get(cid + 'cx', '')[:300]}, limit=3)
+
+
+# user-written cost figure -> (snapshot parameter holding the figure the roll-up used, condition on plant type / totals)
+WRITTEN = {
+    'Reservoir Stimulation Capital Cost': ('Cstim', 'capex'), 'Exploration Capital Cost': ('Cexpl', 'capex'),
+    'Field Gathering System Capital Cost': ('Cgath', 'capex'), 'Wellfield O&M Cost': ('Coamwell', 'opex'), 'Water Cost': ('Coamwater', 'opex'),
+    'Heat Pump Capital Cost': ('heatpumpcapex', 'HEAT_PUMP'), 'Absorption Chiller Capital Cost': ('chillercapex', 'ABSORPTION_CHILLER'),
+    'Absorption Chiller O&M Cost': ('chilleropex', 'ABSORPTION_CHILLER'),
+}
+
+
+def written_figures(chk: core.Check, name, r):
+    """"a user-supplied component cost is used exactly", judged against what the user *wrote* (the input dictionary), not against the
+    flags the reader sets: a reader that drops a figure (because it is 0, or repeats the documented default) also drops the flag"""
+    E, S = r['snap']['economics']['p'], r['snap']['surfaceplant']['p']
+    if r['snap']['economics']['class'] not in ('Economics', 'AGSEconomics'):
+        return
+    pt = geo.enum_name(S['plant_type']['value'])
+    eu = geo.enum_name(S['enduse_option']['value'])
+    for pname, (key, cond) in WRITTEN.items():
+        if pname not in r['params'] or key not in E:
+            continue
+        w = r['params'][pname]
+        if not isinstance(w, (int, float)) or isinstance(w, bool) or w < 0:
+            continue
+        if cond == 'capex' and 'Total Capital Cost' in r['params']:
+            continue
+        if cond == 'opex' and 'Total O&M Cost' in r['params']:
+            continue
+        if cond in ('HEAT_PUMP', 'ABSORPTION_CHILLER') and not (eu == 'HEAT' and pt == cond):
+            continue
+        used = E[key]['value']
+        chk.tag('written-figure/' + key)
+        if not core.close(float(used), Fraction(w), 1e-9, abs_tol=1e-12):
+            chk.fail(f'C03/written/{key}', f'the user wrote `{pname}, {w}` but the roll-up used {used} for that component',
+                     {'case': name, 'params': r['params'], 'parameter': pname, 'written': w, 'used': used})
 
 
 def direct_drill(chk: core.Check, n):
